@@ -765,6 +765,7 @@ func runC06(tier string, seed uint64, o *Out) error {
 	c06CasePairs(tier, NewRNG(seed*1000003+606), o) // far-away generator state: independent across seeds
 	c06Poisoned(tier, NewRNG(seed*1000003+707), o)
 	c06Pads(tier, NewRNG(seed*1000003+808), o)
+	c06Funcs(tier, NewRNG(seed*1000003+909), o)
 	return nil
 }
 
